@@ -16,6 +16,8 @@ import (
 type vPDFWriter struct {
 	buf     []byte
 	eol     string
+	trailer int    // classic sections: 0 "trailer" on its own line, 1 dictionary on the keyword's line, 2 dictionary over several lines with a nested dictionary
+	extends string // extra entry for object stream dictionaries (e.g. "/Extends 9 0 R ")
 	offsets map[int]int
 	packed  map[int]string // objects waiting to be packed into an object stream (number -> body)
 	order   []int
@@ -37,7 +39,15 @@ func (w *vPDFWriter) obj(num int, body string) {
 
 func (w *vPDFWriter) stream(num int, dict, data string) {
 	w.offsets[num] = len(w.buf)
-	w.write(strconv.Itoa(num) + " 0 obj" + w.eol + "<< " + dict + " >>" + w.eol + "stream" + w.eol + data + w.eol + "endstream" + w.eol + "endobj" + w.eol)
+	w.write(strconv.Itoa(num) + " 0 obj" + w.eol + "<< " + dict + " >>" + w.eol + "stream" + w.streamEOL() + data + w.eol + "endstream" + w.eol + "endobj" + w.eol)
+}
+
+// streamEOL: the stream keyword is followed by CRLF or LF, never by a lone CR.
+func (w *vPDFWriter) streamEOL() string {
+	if w.eol == "\r" {
+		return "\r\n"
+	}
+	return w.eol
 }
 
 // flushObjStm writes the waiting objects as one uncompressed object stream and returns, per packed object, its index.
@@ -50,7 +60,7 @@ func (w *vPDFWriter) flushObjStm(num int) map[int]int {
 		idx[n] = i
 	}
 	data := header + body
-	w.stream(num, "/Type /ObjStm /N "+strconv.Itoa(len(w.order))+" /First "+strconv.Itoa(len(header))+" /Length "+strconv.Itoa(len(data)), data)
+	w.stream(num, "/Type /ObjStm "+w.extends+"/N "+strconv.Itoa(len(w.order))+" /First "+strconv.Itoa(len(header))+" /Length "+strconv.Itoa(len(data)), data)
 	w.packed, w.order = map[int]string{}, nil
 	return idx
 }
@@ -99,7 +109,14 @@ func (w *vPDFWriter) xref(xrefStream, pack bool, prev int, nums, free []int, stm
 			}
 			w.write(strconv.Itoa(n) + " 1" + eol + off + " 00000 n" + eolPad(eol) + eol[len(eol)-1:])
 		}
-		w.write("trailer" + eol + "<< /Size " + strconv.Itoa(maxObj) + " /Root 1 0 R")
+		switch w.trailer {
+		case 1:
+			w.write("trailer << /Size " + strconv.Itoa(maxObj) + " /Root 1 0 R")
+		case 2:
+			w.write("trailer" + eol + "<<" + eol + "/Size " + strconv.Itoa(maxObj) + eol + "/VendorData << /Kind /Test" + eol + "/Level 2 >>" + eol + "/Root 1 0 R" + eol)
+		default:
+			w.write("trailer" + eol + "<< /Size " + strconv.Itoa(maxObj) + " /Root 1 0 R")
+		}
 		if prev >= 0 {
 			w.write(" /Prev " + strconv.Itoa(prev))
 		}
@@ -133,7 +150,7 @@ func (w *vPDFWriter) xref(xrefStream, pack bool, prev int, nums, free []int, stm
 	if prev >= 0 {
 		dict += " /Prev " + strconv.Itoa(prev)
 	}
-	w.write(strconv.Itoa(xrefNum) + " 0 obj" + eol + "<< " + dict + " >>" + eol + "stream" + eol + data + eol + "endstream" + eol + "endobj" + eol)
+	w.write(strconv.Itoa(xrefNum) + " 0 obj" + eol + "<< " + dict + " >>" + eol + "stream" + w.streamEOL() + data + eol + "endstream" + eol + "endobj" + eol)
 	w.write("startxref" + eol + strconv.Itoa(pos) + eol + "%%EOF" + eol)
 	return pos
 }
@@ -345,6 +362,107 @@ func eolPad(eol string) string {
 		return " "
 	}
 	return eol[:1]
+}
+
+// H_C01_layout_spellings: legal spellings of the file structure that a writer other than the usual ones may choose.
+//
+//symgo:harness prop=C01 kernel=K6-whole-file-spellings
+//symgo:desc same logical two-page document and harness-local writer as K5, flat page tree; enumerated: line ends LF, CRLF or a lone CR (the stream keyword then followed by CRLF); cross-reference as classic table or stream; classic trailer written as "trailer" on its own line, as "trailer << ... >>" on one line, or over several lines with a nested dictionary value before /Root; each page's content in one stream or split over two streams where the first ends directly after an operator with no trailing white space ("...Tj" | "ET") or inside the operand list ("(text)" | "Tj"); with a cross-reference stream, objects packed into an object stream whose dictionary carries /Extends (a reference to an earlier, empty-purpose object stream) or not; zero or one incremental revision replacing page 1's content: PageCount is 2, each page's text holds its own strings in content order and nothing of the other page or the replaced revision
+func H_C01_layout_spellings() {
+	eol := []string{"\n", "\r\n", "\r"}[vAnyIntIn(0, 2)]
+	xrefStream := vAnyIntIn(0, 1) == 1
+	trailer, extends := 0, false
+	if xrefStream {
+		extends = vAnyIntIn(0, 1) == 1
+	} else {
+		trailer = vAnyIntIn(0, 2)
+	}
+	split := vAnyIntIn(0, 2) // 0 one stream, 1 split after an operator, 2 split between operand and operator
+	revise := vAnyIntIn(0, 1) == 1
+	w := &vPDFWriter{eol: eol, offsets: map[int]int{}, trailer: trailer}
+	w.write("%PDF-1.5" + eol + "%\xe2\xe3\xcf\xd3" + eol)
+	if xrefStream {
+		w.packed = map[int]string{}
+	}
+	if extends {
+		w.extends = "/Extends 9 0 R "
+	}
+	contents := func(a, b int) string {
+		if split > 0 {
+			return "[" + strconv.Itoa(a) + " 0 R " + strconv.Itoa(b) + " 0 R]"
+		}
+		return strconv.Itoa(a) + " 0 R"
+	}
+	w.obj(1, "<< /Type /Catalog /Pages 2 0 R >>")
+	w.obj(2, "<< /Type /Pages /Kids [4 0 R 5 0 R] /Count 2 /Resources << /Font << /F1 6 0 R >> >> /MediaBox [0 0 612 792] >>")
+	w.obj(4, "<< /Type /Page /Parent 2 0 R /Contents "+contents(10, 11)+" >>")
+	w.obj(5, "<< /Type /Page /Parent 2 0 R /Contents "+contents(12, 13)+" >>")
+	w.obj(6, "<< /Type /Font /Subtype /Type1 /BaseFont /Helvetica /Encoding /WinAnsiEncoding >>")
+	put := func(num int, data string) { w.stream(num, "/Length "+strconv.Itoa(len(data)), data) }
+	page := func(a, b int, t1, t2 string) {
+		switch split {
+		case 0:
+			put(a, "BT /F1 12 Tf 72 720 Td ("+t1+") Tj 0 -20 Td ("+t2+") Tj ET")
+		case 1:
+			put(a, "BT /F1 12 Tf 72 720 Td ("+t1+") Tj 0 -20 Td ("+t2+") Tj")
+			put(b, "ET")
+		default:
+			put(a, "BT /F1 12 Tf 72 720 Td ("+t1+") Tj 0 -20 Td ("+t2+")")
+			put(b, "Tj ET")
+		}
+	}
+	page(10, 11, "Page1 first", "Page1 second")
+	page(12, 13, "Page2 first", "Page2 second")
+	nums := []int{1, 2, 4, 5, 6, 10, 12}
+	if split > 0 {
+		nums = append(nums, 11, 13)
+	}
+	if extends {
+		// an earlier object stream holding one unrelated object, named by the main object stream's /Extends
+		w.offsets[9] = len(w.buf)
+		data := "8 0 (unrelated)"
+		w.write("9 0 obj" + eol + "<< /Type /ObjStm /N 1 /First 4 /Length " + strconv.Itoa(len(data)) + " >>" + eol + "stream" + w.streamEOL() + data + eol + "endstream" + eol + "endobj" + eol)
+		nums = append(nums, 9)
+	}
+	first := w.xref(xrefStream, xrefStream, -1, nums, nil, 30, 31, 32)
+	want1 := []string{"Page1 first", "Page1 second"}
+	if revise {
+		if split > 0 {
+			put(10, "BT /F1 12 Tf 72 720 Td (Page1 revised) Tj")
+			put(11, "ET")
+			w.xref(xrefStream, xrefStream, first, []int{10, 11}, nil, 28, 29, 32)
+		} else {
+			put(10, "BT /F1 12 Tf 72 720 Td (Page1 revised) Tj ET")
+			w.xref(xrefStream, xrefStream, first, []int{10}, nil, 28, 29, 32)
+		}
+		want1 = []string{"Page1 revised"}
+	}
+	name := "/tmp/symgo-replay-c01s.pdf"
+	vFileContent(name, string(w.buf))
+	n, err := Open(name).PageCount()
+	vAssert("page-count-no-error", err == nil)
+	vAssert("page-count-is-number-of-leaves", n == 2)
+	check := func(pg int, want, absent []string) {
+		txt, _, terr := Open(name).Pages(pg).Text()
+		vAssert("text-no-error", terr == nil)
+		vObserveStr("page-text", txt)
+		pos := 0
+		for _, s := range want {
+			k := strings.Index(txt[pos:], s)
+			vAssert("page-text-in-content-order", k >= 0)
+			pos += k + len(s)
+		}
+		for _, s := range absent {
+			vAssert("no-text-of-other-pages-or-old-revisions", !strings.Contains(txt, s))
+		}
+	}
+	absent1 := []string{"Page2"}
+	if revise {
+		absent1 = append(absent1, "Page1 first", "Page1 second")
+	}
+	check(1, want1, absent1)
+	check(2, []string{"Page2 first", "Page2 second"}, []string{"Page1"})
+	vReach("end")
 }
 
 // H_C04_lookup_over_revisions: in a file with layered incremental updates every lookup returns the newest revision of the
